@@ -580,10 +580,50 @@ func stripAliases(sel *influxql.SelectStatement, idx map[int]bool) {
 }
 
 func c12One(c *Ctx, idx int, local map[string]int64) {
-	r := c.R
+	if idx <= -1000 {
+		c12Joined(c) // replay of a case from the fixed sequence: the whole sequence
+		return
+	}
 	rg := mon.NewRng(c.Seed, "c12", idx)
 	sch := c12GenSchema(rg)
 	text := c12GenSelect(rg, 3)
+	c12Case(c, idx, sch, text, local)
+}
+
+// c12Joined: column names and regexes whose texts run into each other when
+// written side by side (/1/ against "15m", /11/ against "5m"), asked one after
+// the other in this process, in both orders (on separate name sets): what was
+// matched before must not answer for another pair.
+func c12Joined(c *Ctx) {
+	local := map[string]int64{}
+	mk := func(names ...string) *c12schema {
+		sch := &c12schema{fields: map[string]map[string]influxql.DataType{"m0": {}}, tags: map[string][]string{"m0": nil}}
+		for i, n := range names {
+			if strings.HasPrefix(n, "t:") {
+				sch.tags["m0"] = append(sch.tags["m0"], n[2:])
+			} else {
+				sch.fields["m0"][n] = []influxql.DataType{influxql.Float, influxql.Integer, influxql.String}[i%3]
+			}
+		}
+		return sch
+	}
+	a := mk("15m", "5m", "115m", "1", "11", "m", "t:dc", "t:dcn", "t:cn", "t:d", "t:n")
+	b := mk("27x", "7x", "227x", "2", "22", "x", "t:ab", "t:abc", "t:bc", "t:a", "t:c")
+	k := 0
+	run := func(sch *c12schema, texts ...string) {
+		for _, t := range texts {
+			k++
+			c12Case(c, -1000-k, sch, t, local)
+		}
+	}
+	run(a, "SELECT /1/ FROM m0", "SELECT /11/ FROM m0", "SELECT /5/ FROM m0", "SELECT /15/ FROM m0", "SELECT mean(/11/), max(/1/) FROM m0", "SELECT m FROM m0 GROUP BY /d/", "SELECT m FROM m0 GROUP BY /dd/", "SELECT m FROM m0 GROUP BY dc, /dd/", "SELECT m FROM m0 GROUP BY /dc/", "SELECT m FROM m0 GROUP BY /c/, /n/")
+	run(b, "SELECT /22/ FROM m0", "SELECT /2/ FROM m0", "SELECT /27/ FROM m0", "SELECT /7/ FROM m0", "SELECT max(/2/), mean(/22/) FROM m0", "SELECT x FROM m0 GROUP BY /aa/", "SELECT x FROM m0 GROUP BY /a/", "SELECT x FROM m0 GROUP BY /bc/", "SELECT x FROM m0 GROUP BY /b/, /c/")
+	c.R.MergeCounts(local)
+	c.R.Count("joined-text-sequence", int64(k))
+}
+
+func c12Case(c *Ctx, idx int, sch *c12schema, text string, local map[string]int64) {
+	r := c.R
 	det := func(why string) map[string]interface{} {
 		return map[string]interface{}{"idx": idx, "input": text, "schema": fmt.Sprint(sch.fields, sch.tags), "why": why}
 	}
@@ -705,6 +745,7 @@ func checkC12(c *Ctx) (string, bool, []string) {
 		return rule, false, assume
 	}
 	n := c.N(15000, 600000)
+	c12Joined(c)
 	mon.Parallel(n, c.Workers, func(i int) {
 		local := map[string]int64{}
 		c12One(c, i, local)
